@@ -158,6 +158,40 @@ class Run:
         self.cov["transitions"] = self.cov.get("transitions", 0) + res["generated"]
         return res
 
+    def apalache_inductive(self, module, inv="IndInv", init="Init", indinit="IndInit", timeout=600):
+        """Unbounded-length safety of a small typed specification: apalache-mc discharges Init => inv (length 0) and
+        inv /\\ Next => inv' (length 1 from indinit). A design-level result like tlc_mc: "Error" means the specification
+        is refuted (Undecided, never a violation of the code); a missing tool or a timeout is recorded as skipped."""
+        exe = shutil.which("apalache-mc")
+        rec = {"module": module, "invariant": inv, "tool": "apalache-mc"}
+        self.cov.setdefault("inductive_invariants", []).append(rec)
+        if not exe:
+            rec["result"] = "skipped: apalache-mc not on PATH"
+            return rec
+        d = os.path.join(self.work, "apa_" + module.replace(".tla", ""))
+        os.makedirs(d, exist_ok=True)
+        shutil.copy(os.path.join(SPEC, module), d)
+        t = time.time()
+        for step, args in (("base", ["--init=" + init, "--inv=" + inv, "--length=0"]),
+                           ("step", ["--init=" + indinit, "--inv=" + inv, "--length=1"])):
+            try:
+                p = subprocess.run([exe, "check", "--out-dir=" + os.path.join(d, "out"), "--run-dir=" + os.path.join(d, "run-" + step)] + args + [module],
+                                   cwd=d, stdout=subprocess.PIPE, stderr=subprocess.STDOUT, text=True, timeout=timeout)
+            except subprocess.TimeoutExpired:
+                rec["result"] = "skipped: timeout in the %s case" % step
+                return rec
+            if "The outcome is: NoError" in p.stdout:
+                continue
+            if "The outcome is: Error" in p.stdout:
+                log(p.stdout[-3000:])
+                raise Undecided("apalache-mc refutes the %s case of %s in %s: the specification itself is wrong" % (step, inv, module))
+            rec["result"] = "skipped: apalache-mc failed in the %s case (rc=%d)" % (step, p.returncode)
+            return rec
+        rec["result"] = "inductive: Init => %s and %s /\\ Next => %s' discharged" % (inv, inv, inv)
+        rec["wall_s"] = round(time.time() - t, 1)
+        shutil.rmtree(d, ignore_errors=True)
+        return rec
+
     def tlc_gen(self, module, cfg, num, depth, name="gen", seed=None, timeout=900, consts=None):
         """Simulate the specification; the cfg's CONSTRAINT dumps each behaviour's history as JSON into
         ./out/.  Returns the list of behaviours (each a list of op records)."""
